@@ -72,6 +72,23 @@ def apply_reform(params, functions, reform):
     return p2, f2
 
 
+def inplace_reform(params, group):
+    """The caller edits the parameters it was handed (the usual way to write a reform)."""
+    def rec(o):
+        if isinstance(o, dict):
+            for k in list(o):
+                if k == "datum":
+                    continue
+                v = o[k]
+                if isinstance(v, dict):
+                    rec(v)
+                elif isinstance(v, np.ndarray) and v.dtype.kind == "f":
+                    v[np.isfinite(v)] *= 1.07
+                elif isinstance(v, float) and np.isfinite(v):
+                    o[k] = v * 1.07
+    rec(params[group])
+
+
 def make_data(df, form):
     if form == "df":
         return df.copy()
@@ -134,6 +151,9 @@ def run_history(history):
                 slots[op["slot"]] = (p2, f2, d)
                 if env.deep_equal(snap, p, "params"):
                     rec["findings"].append("harness: reform modified the base params")
+            elif op["op"] == "reform_inplace":
+                p, f, d = slots[op["slot"]]
+                inplace_reform(p, op["group"])
             elif op["op"] == "vectorize":
                 p, f, d = slots[op["slot"]]
                 n = 0
@@ -149,6 +169,9 @@ def run_history(history):
                 call = op["call"]
                 p, f, d = slots[op["slot"]]
                 assert str(d) == call["date"]
+                if op.get("fresh_inplace"):  # replay alone: the same edits are made after set-up
+                    for g in op["fresh_inplace"]:
+                        inplace_reform(p, g)
                 p, f = apply_reform(p, f, call.get("reform"))
                 df = build_population(call["pop"], d, p)
                 data = make_data(df, call["form"])
